@@ -218,7 +218,7 @@ pub fn judge(script: &Script, obs: &Observation) -> CaseResult {
 fn offsets_part() -> Box<dyn crate::core::Part> {
     Box::new(RandomPart {
         name: "every_eof_offset",
-        rule: "proptest: fault-free script of C01's shape with 1-6 steps; run once to learn the server's output length N, then re-run with the peer closing at EVERY absolute offset 14..=N (and a read error at every 4th); E1-E7 on each run. 'executions' counts runs; non-trivial = some run ended inside a response with a request pending",
+        rule: "proptest: fault-free script of C01's shape with 1-6 steps; run once to learn the server's output length N, then re-run with the peer closing at EVERY absolute offset 14..=N (and a read error at every 4th), and with every write from the k-th on failing for EVERY k; E1-E7 on each run. 'executions' counts runs; non-trivial = some run ended inside a response with a request pending",
         cases: (150, 6_000),
         strategy: Box::new(|_t| simgen::script(2, 2, 6).prop_filter("no holds", |s| !flatten(&s.steps).iter().any(|x| matches!(x, Step::Hold | Step::Cancel(_)))).boxed()),
         check: Box::new(|base: &Script| {
@@ -251,6 +251,29 @@ fn offsets_part() -> Box<dyn crate::core::Part> {
                     for c in j.classes {
                         r.class(c);
                     }
+                }
+            }
+            // and a persistent write error from the k-th write on, for every k
+            let writes = first.transcript.iter().filter(|t| matches!(t, Tx::Line { .. })).count() + 2;
+            for k in 0..writes {
+                let mut s = base.clone();
+                s.steps.insert(0, Step::Fault(Fault::WriteErrorAfter(k)));
+                let obs = sim::run(&s);
+                execs += 1;
+                let j = judge(&s, &obs);
+                if j.failed() {
+                    let mut j = j;
+                    if let crate::core::Outcome::Fail(m) = &j.outcome {
+                        j.outcome = crate::core::Outcome::Fail(format!("with every write from the {k}-th on failing: {m}"));
+                    }
+                    j.execs = execs;
+                    return j;
+                }
+                if j.nontrivial {
+                    r.nontrivial();
+                }
+                for c in j.classes {
+                    r.class(c);
                 }
             }
             r.execs = execs;
